@@ -26,9 +26,20 @@ Definition close_s (isf : bool) : str := if isf then bs "]" else bs "}".
 Definition open_c (isf : bool) : Z := if isf then 91 else 123.
 Definition close_c (isf : bool) : Z := if isf then 93 else 125.
 
-(** ** The compact concrete syntax: no white space, the group keyword always
-    written and followed by a comma, one comma between operands / arguments,
-    none after the last.
+Definition lot_is_and (t : lot) : bool := match t with LAnd => true | _ => false end.
+
+(** the stored userString [us] of an AND group is the spelling without keyword *)
+Definition kw_omitted (isf : bool) (t : lot) (body us : str) : bool :=
+  lot_is_and t && str_eqb us (open_s isf ++ body ++ close_s isf).
+
+(** ** The compact concrete syntax: no white space; one comma between operands
+    / arguments, none after the last; a group is spelled `{KW,x1,...,xn}` (a
+    filter `[KW,x1,...,xn]`) with KW = AND | OR followed by a comma — except
+    that an AND group whose stored userString is the spelling without the
+    keyword, `{x1,...,xn}` / `[x1,...,xn]`, is rendered that way (the parser
+    accepts both spellings of AND and keeps the one written in the
+    userString; Sprint always prints the keyword).
+      $.a.b?[@.x.Equal(1),{OR,@.y,$.z}].Sum($.n,2)
       $.a.b?[AND,@.x.Equal(1),{OR,@.y,$.z}].Sum($.n,2)            *)
 Fixpoint render_path (p : path) : str :=
   match p with Path _ root _ _ ops _ => rp_root_str root ++ concat (map render_pathop ops) end
@@ -43,13 +54,20 @@ with render_func (f : func) : str :=
 with render_param (p : param) : str :=
   match p with FPPath q => render_path q | FPLog l => render_logop l | _ => param_string p end
 with render_logop (l : logop) : str :=
-  match l with LogOp _ isf t xs _ =>
-    open_s isf ++ kw_text t ++ bs "," ++ concat_str (bs ",") (map render_operand xs) ++ close_s isf end
+  match l with LogOp _ isf t xs us =>
+    if kw_omitted isf t (concat_str (bs ",") (map render_operand xs)) us
+    then open_s isf ++ concat_str (bs ",") (map render_operand xs) ++ close_s isf
+    else open_s isf ++ kw_text t ++ bs "," ++ concat_str (bs ",") (map render_operand xs) ++ close_s isf
+  end
 with render_operand (x : operand) : str :=
   match x with OpP p => render_path p | OpL l => render_logop l end.
 
 Definition render (t : top) : str :=
   match t with TopP p => render_path p | TopL l => render_logop l end.
+
+Definition log_body (xs : list operand) : str := concat_str (bs ",") (map render_operand xs).
+Definition logop_om (l : logop) : bool :=
+  match l with LogOp _ isf t xs us => kw_omitted isf t (log_body xs) us end.
 
 Section AllP.
   Context {A : Type} (P : A -> Prop).
@@ -100,7 +118,7 @@ with canon_logop (uni : uclass) (l : logop) {struct l} : Prop :=
   match l with
   | LogOp inv isf t xs us =>
     inv = false /\ (t = LAnd \/ t = LOr) /\
-    us = open_s isf ++ kw_text t ++ bs "," ++ concat_str (bs ",") (map render_operand xs) ++ close_s isf /\
+    us = render_logop (LogOp inv isf t xs us) /\
     all_P (canon_operand uni isf) xs
   end
 with canon_operand (uni : uclass) (isf : bool) (x : operand) {struct x} : Prop :=
@@ -142,9 +160,10 @@ with its_param (p : param) {struct p} : list item :=
   end
 with its_logop (ws : bool) (d : nat) (l : logop) {struct l} : list item :=
   match l with
-  | LogOp _ isf t xs _ =>
+  | LogOp _ isf t xs us =>
     (if isf then [] else W ws (tabs d)) ++ ICh (open_c isf) ::
-    (W ws (nl ++ tabs (S d)) ++ IKw t :: ICh 44 ::
+    (W ws (nl ++ tabs (S d)) ++
+     (if kw_omitted isf t (concat_str (bs ",") (map render_operand xs)) us then [] else [IKw t; ICh 44]) ++
      jn [ICh 44] (map (fun x => W ws nl ++ its_operand ws (S d) x) xs) ++
      W ws (nl ++ tabs d) ++ [ICh (close_c isf)])
   end
@@ -157,8 +176,8 @@ Definition its_top (ws : bool) (t : top) : list item :=
 (** the parts of a function call / a group after the name / the opening bracket *)
 Definition its_fargs (ps : list param) : list item :=
   ICh 40 :: jn [ICh 44] (map its_param ps) ++ [ICh 41].
-Definition its_lbody (ws : bool) (d : nat) (isf : bool) (t : lot) (xs : list operand) : list item :=
-  W ws (nl ++ tabs (S d)) ++ IKw t :: ICh 44 ::
+Definition its_lbody (ws : bool) (d : nat) (isf : bool) (t : lot) (om : bool) (xs : list operand) : list item :=
+  W ws (nl ++ tabs (S d)) ++ (if om then [] else [IKw t; ICh 44]) ++
   jn [ICh 44] (map (fun x => W ws nl ++ its_operand ws (S d) x) xs) ++
   W ws (nl ++ tabs d) ++ [ICh (close_c isf)].
 
@@ -170,7 +189,8 @@ Lemma its_func_eq : forall inv ft ps us, its_func (Func inv ft ps us) = IName ft
 Proof. reflexivity. Qed.
 Lemma its_logop_eq : forall ws d inv isf t xs us,
   its_logop ws d (LogOp inv isf t xs us)
-  = (if isf then [] else W ws (tabs d)) ++ ICh (open_c isf) :: its_lbody ws d isf t xs.
+  = (if isf then [] else W ws (tabs d)) ++ ICh (open_c isf) ::
+    its_lbody ws d isf t (logop_om (LogOp inv isf t xs us)) xs.
 Proof. reflexivity. Qed.
 
 (** Sprint-level nesting depth (filters and groups; not function arguments) *)
@@ -331,16 +351,17 @@ Proof.
     + apply Ha.
     + apply Ha.
   - intros inv isf t xs us HF d.
-    rewrite its_logop_eq. unfold its_lbody. cbn [W].
+    assert (Hb : map (fun x => items_text (its_operand false (S d) x)) xs = map render_operand xs).
+    { apply map_ext_F. eapply Forall_impl; [|exact HF].
+      intros [p|l] Hx; cbn [Px_of] in Hx; cbn [its_operand render_operand app]; apply Hx. }
+    rewrite its_logop_eq. unfold its_lbody. cbn [W logop_om render_logop]. unfold log_body.
     replace (if isf then [] else @nil item) with (@nil item) by (destruct isf; reflexivity).
-    cbn [app]. rewrite !items_text_cons, items_text_app, items_text_jn.
-    cbn [item_text render_logop]. rewrite map_map.
-    change (items_text [ICh 44]) with (bs ","). change (ch_str 44) with (bs ",").
-    rewrite open_s_ch, close_s_ch.
-    f_equal. f_equal. f_equal. f_equal.
-    f_equal.
-    apply map_ext_F. eapply Forall_impl; [|exact HF].
-    intros [p|l] Hx; cbn [Px_of] in Hx; cbn [its_operand render_operand app]; apply Hx.
+    cbn [app]. rewrite items_text_cons. cbn [item_text]. rewrite open_s_ch, close_s_ch.
+    destruct (kw_omitted isf t (concat_str (bs ",") (map render_operand xs)) us).
+    + cbn [app]. rewrite items_text_app, items_text_jn, map_map.
+      change (items_text [ICh 44]) with (bs ","). rewrite Hb. reflexivity.
+    + cbn [app]. rewrite !items_text_cons, items_text_app, items_text_jn, map_map.
+      change (items_text [ICh 44]) with (bs ","). rewrite Hb. reflexivity.
 Qed.
 
 Theorem render_items : forall t, items_text (its_top false t) = render t.
@@ -417,49 +438,68 @@ Proof.
     rewrite <- ?app_assoc; reflexivity.
 Qed.
 
+(** the groups and filters that Sprint prints structurally (not those inside
+    function arguments) have the keyword in their userString *)
+Fixpoint kws_path (p : path) : Prop :=
+  match p with Path _ _ _ _ ops _ => all_P kws_pathop ops end
+with kws_pathop (o : pathop) : Prop :=
+  match o with PFilter l _ => kws_logop l | _ => True end
+with kws_logop (l : logop) : Prop :=
+  match l with
+  | LogOp _ isf t xs us =>
+    kw_omitted isf t (concat_str (bs ",") (map render_operand xs)) us = false /\ all_P kws_operand xs
+  end
+with kws_operand (x : operand) : Prop :=
+  match x with OpP p => kws_path p | OpL l => kws_logop l end.
+Definition kws (t : top) : Prop := match t with TopP p => kws_path p | TopL l => kws_logop l end.
+
 Definition BP (uni : uclass) (p : path) : Prop :=
-  canon_path uni p -> forall k d, (dp_path p <= k)%nat -> sprint_path k d p = items_text (its_path true d p).
+  canon_path uni p -> kws_path p ->
+  forall k d, (dp_path p <= k)%nat -> sprint_path k d p = items_text (its_path true d p).
 Definition BL (uni : uclass) (l : logop) : Prop :=
-  canon_logop uni l -> forall k d, (dp_logop l <= k)%nat -> sprint_log k d l = items_text (its_logop true d l).
+  canon_logop uni l -> kws_logop l ->
+  forall k d, (dp_logop l <= k)%nat -> sprint_log k d l = items_text (its_logop true d l).
 
 Lemma text_B : forall uni, (forall p, BP uni p) /\ (forall f : func, True) /\ (forall l, BL uni l).
 Proof.
   intros uni. apply ast_ind3.
-  - intros inv root isf me ops us HF (_ & _ & _ & Hops) k d Hk.
+  - intros inv root isf me ops us HF (_ & _ & _ & Hops) Hkw k d Hk.
     cbn [dp_path] in Hk. destruct k as [|k]; [lia|].
-    apply all_P_Forall in Hops.
+    apply all_P_Forall in Hops. cbn [kws_path] in Hkw. apply all_P_Forall in Hkw.
     pose proof (max_bound dp_pathop ops k ltac:(lia)) as Hd.
     rewrite sprint_path_S, its_path_eq. cbn [W app].
     rewrite !items_text_cons, items_text_flat_map.
     cbn [item_text]. rewrite <- root_str_ch.
     f_equal. f_equal. f_equal.
     apply map_ext_F.
-    refine (Forall_and2 _ _ _ ops _ (Forall_and2 _ _ _ ops (fun x a b => conj a b) HF Hops) Hd).
-    intros [kk q us1|l us1|f] [Ho Hc] Hdo; cbn [Po_of] in Ho; cbn [canon_pathop] in Hc; cbn [dp_pathop] in Hdo;
-      cbn [sp_op its_pathop].
+    refine (Forall_and2 _ _ _ ops _
+              (Forall_and2 _ _ _ ops (fun x a b => conj a b)
+                 (Forall_and2 _ _ _ ops (fun x a b => conj a b) HF Hops) Hkw) Hd).
+    intros [kk q us1|l us1|f] [[Ho Hc] Hs] Hdo; cbn [Po_of] in Ho; cbn [canon_pathop] in Hc;
+      cbn [kws_pathop] in Hs; cbn [dp_pathop] in Hdo; cbn [sp_op its_pathop].
     + rewrite !items_text_cons. cbn [item_text items_text map concat]. rewrite app_nil_r. reflexivity.
-    + apply Ho; [exact (proj1 Hc)|exact Hdo].
+    + apply Ho; [exact (proj1 Hc)|exact Hs|exact Hdo].
     + rewrite items_text_cons, (proj1 (proj2 text_A) f), (canon_sprint_func uni f Hc). reflexivity.
   - intros; exact I.
-  - intros inv isf t xs us HF (_ & Ht & _ & Hxs) k d Hk.
+  - intros inv isf t xs us HF (_ & Ht & _ & Hxs) (Hom & Hkw) k d Hk.
     cbn [dp_logop] in Hk. destruct k as [|k]; [lia|].
-    apply all_P_Forall in Hxs.
+    apply all_P_Forall in Hxs. apply all_P_Forall in Hkw.
     pose proof (max_bound dp_operand xs k ltac:(lia)) as Hd.
-    rewrite sprint_log_S, its_logop_eq. unfold its_lbody. cbn [W].
-    rewrite items_text_app, items_text_cons, items_text_app, !items_text_cons, items_text_app, items_text_jn,
-      items_text_app.
-    change (items_text [IWs (nl ++ tabs (S d))]) with ((nl ++ tabs (S d)) ++ []).
-    change (items_text [IWs (nl ++ tabs d)]) with ((nl ++ tabs d) ++ []).
+    rewrite sprint_log_S, its_logop_eq. cbn [logop_om]. unfold log_body. rewrite Hom.
+    unfold its_lbody. cbn [W app].
+    rewrite items_text_app, !items_text_cons, items_text_app, items_text_jn.
+    change (items_text [IWs (nl ++ tabs d); ICh (close_c isf)]) with ((nl ++ tabs d) ++ ch_str (close_c isf) ++ []).
     change (items_text [ICh 44]) with (bs ",").
-    change (items_text [ICh (close_c isf)]) with (ch_str (close_c isf) ++ []).
     rewrite !app_nil_r. cbn [item_text]. rewrite map_map, <- !app_assoc.
     apply shape_log; [exact Ht|].
     f_equal.
     apply map_ext_F.
-    refine (Forall_and2 _ _ _ xs _ (Forall_and2 _ _ _ xs (fun x a b => conj a b) HF Hxs) Hd).
-    intros [p|l] [Hx Hc] Hdx; cbn [Px_of] in Hx; cbn [canon_operand] in Hc; cbn [dp_operand] in Hdx;
-      cbn [sp_operand its_operand]; rewrite items_text_app;
-      change (items_text [IWs nl]) with nl; f_equal; (apply Hx; [exact (proj1 Hc)|exact Hdx]).
+    refine (Forall_and2 _ _ _ xs _
+              (Forall_and2 _ _ _ xs (fun x a b => conj a b)
+                 (Forall_and2 _ _ _ xs (fun x a b => conj a b) HF Hxs) Hkw) Hd).
+    intros [p|l] [[Hx Hc] Hs] Hdx; cbn [Px_of] in Hx; cbn [canon_operand] in Hc; cbn [kws_operand] in Hs;
+      cbn [dp_operand] in Hdx; cbn [sp_operand its_operand]; rewrite items_text_cons;
+      cbn [item_text]; f_equal; (apply Hx; [exact (proj1 Hc)|exact Hs|exact Hdx]).
 Qed.
 
 (* ================================================================== *)
@@ -499,21 +539,22 @@ Proof.
       intros [k q us1|l us1|f] Ho; cbn [Po_of] in Ho; cbn [dp_pathop render_pathop]; [lia|exact Ho|lia]. }
     lia.
   - intros; exact I.
-  - intros inv isf t xs us HF. cbn [dp_logop render_logop]. rewrite !app_length.
+  - intros inv isf t xs us HF.
     assert (H1 : length (open_s isf) = 1%nat) by (destruct isf; reflexivity).
     assert (H2 : (fold_right (fun x n => Nat.max (dp_operand x) n) O xs
                   <= length (concat_str (bs ",") (map render_operand xs)))%nat).
     { apply length_concat_str_max. eapply Forall_impl; [|exact HF].
       intros [p|l] Hx; cbn [Px_of] in Hx; cbn [dp_operand render_operand]; exact Hx. }
-    lia.
+    cbn [dp_logop render_logop].
+    destruct (kw_omitted isf t (concat_str (bs ",") (map render_operand xs)) us); rewrite !app_length; lia.
 Qed.
 
-Theorem sprint_items : forall uni t, canon uni t -> sprint_top t = items_text (its_top true t).
+Theorem sprint_items : forall uni t, canon uni t -> kws t -> sprint_top t = items_text (its_top true t).
 Proof.
-  intros uni [p|l] H; cbn [canon] in H; destruct H as (Hc & _); cbn [sprint_top its_top].
-  - apply (proj1 (text_B uni) p Hc).
+  intros uni [p|l] H Hk; cbn [canon] in H; destruct H as (Hc & _); cbn [kws] in Hk; cbn [sprint_top its_top].
+  - apply (proj1 (text_B uni) p Hc Hk).
     rewrite (canon_path_us uni p Hc). pose proof (proj1 depth_E p). lia.
-  - apply (proj2 (proj2 (text_B uni)) l Hc).
+  - apply (proj2 (proj2 (text_B uni)) l Hc Hk).
     rewrite (canon_logop_us uni l Hc). pose proof (proj2 (proj2 depth_E) l). lia.
 Qed.
 
@@ -616,7 +657,9 @@ Proof.
     { destruct isf; [exact I|apply wf_W, tabs_ws]. }
     cbn [wf_items item_ok]. split; [apply in_punct_open|].
     unfold its_lbody. apply wf_items_app. split; [apply wf_W, nl_tabs_ws|].
-    cbn [wf_items item_ok]. split; [split; [exact Ht|reflexivity]|]. split; [exact in_punct_44|].
+    apply wf_items_app. split.
+    { destruct (logop_om (LogOp inv isf t xs us)); [exact I|].
+      cbn [wf_items item_ok]. split; [split; [exact Ht|reflexivity]|]. split; [exact in_punct_44|exact I]. }
     apply (wf_jn uni (pfollow uni)); [apply pfollow_44| | |].
     + apply all_P_Forall in Hxs. apply Forall_map.
       refine (Forall_and2 _ _ _ xs _ HF Hxs).
@@ -634,12 +677,4 @@ Proof.
   intros uni ws [p|l] H; cbn [canon] in H; destruct H as (Hc & _); cbn [its_top].
   - apply (proj1 (wf_C uni) p Hc). apply pfollow_eof.
   - apply (proj2 (proj2 (wf_C uni)) l Hc).
-Qed.
-
-Lemma peek_top : forall ws t, logop_isf (match t with TopL l => l | TopP _ => LogOp false false LAnd [] [] end) = false ->
-  peek (items_cs (its_top ws t)) <> bom.
-Proof.
-  intros ws [[inv root isf me ops us]|[inv isf t xs us]] H; cbn [its_top].
-  - rewrite its_path_eq. destruct ws, root; cbn; discriminate.
-  - cbn [logop_isf] in H. subst isf. rewrite its_logop_eq. destruct ws; cbn; discriminate.
 Qed.
